@@ -10,10 +10,11 @@ height `env.height`; `none` = FAULT. `get`/`put`/`del` work on the raw byte-keye
 
 Sections: 1 gate (witness, version bounds, `AppendVersion`, atomicity, monotonicity) · 2 pending votes ·
 3 Balance · 4 Container · 5 NeoFSID, Audit, Reputation, Proxy, NeoFS, Processing · 6 Netmap · 7 NNS.
-Two statements the property would like are FALSE of the current code; each has a kernel-checked
-negation witness here (`netmap_empty_snapshot_becomes_null` = finding F17,
-`container_57_byte_estimation_key_is_renamed` = finding F18) and the positive theorem carries the
-hypothesis that excludes exactly that input class. -/
+One statement the property would like is FALSE of the current code; it has a kernel-checked negation
+witness here (`container_57_byte_estimation_key_is_renamed` = finding F21) and the positive theorem carries
+the hypothesis that excludes exactly that input class. (Finding F20 - an empty Netmap snapshot list
+migrated to Null - was repaired by f42319b; `netmap_upgrade_keeps_empty_node_lists` states the repaired
+behaviour.) -/
 namespace NeoFS.Props.C16
 open NeoFS NeoFS.Upgrade NeoFS.Generated
 
@@ -363,7 +364,7 @@ theorem container_upgrade_identity_current_layout (st st' : CState) (env : Env) 
   intro q hq
   exact container_new_identity hn (containerNew_no_bare hnew) hm q hq
 
-/-- **finding F18 (negation witness)**: the estimation family `cnr ‖ epoch ‖ cid ‖ postfix` has keys of
+/-- **finding F21 (negation witness)**: the estimation family `cnr ‖ epoch ‖ cid ‖ postfix` has keys of
 `45 + |epoch|` bytes; with a 12-byte epoch (≥ 2^87, which `putContainerSize` accepts from a storage node)
 the key has 57 bytes and the next upgrade - from ANY version - moves it into the owner index. That is why
 `CnrOther` bounds the epoch by 9 bytes. -/
@@ -463,16 +464,16 @@ theorem netmap_upgrade_keeps_nodes_since_016 (st st' : CState) (env : Env) (data
   simp only [migrate] at hm
   exact netmap_nodes_untouched (by omega) hm k hk
 
-/-- **node lists before 0.16**: every snapshot slot below the snapshot count holds, after the upgrade, the
-serialization of the same nodes in the same order, each `{BLOB}` turned into `{BLOB, Online}` - PROVIDED
-the list is not empty; an absent slot stays absent. (The empty list is finding F17 below.) -/
+/-- **node lists before 0.16 are preserved, empty lists included**: every snapshot slot below the snapshot
+count holds, after the upgrade, the serialized array of the same number of nodes in the same order, each
+`{BLOB}` turned into `{BLOB, Online}`; an absent slot stays absent. No hypothesis on the list. -/
 theorem netmap_upgrade_converts_node_lists (st st' : CState) (env : Env) (data : Item) (nefOk : Bool)
     (hv : st.ver < 16000) (h : update .netmap st env data nefOk = some st')
     (c : Nat) (hc : snapshotCount st.store = some c) (i : Nat) (hi : i < c) :
     match get st.store (snapshotKey i) with
     | none => get st'.store (snapshotKey i) = none
     | some d => ∃ it nodes nn, deser d = some it ∧ elems it = some nodes ∧ NodesConv nodes nn ∧
-        get st'.store (snapshotKey i) = some (ser (if nn.isEmpty then .null else .array nn)) := by
+        nn.length = nodes.length ∧ get st'.store (snapshotKey i) = some (ser (.array nn)) := by
   obtain ⟨_, _, _, _, args, _, hm⟩ := update_some h
   simp only [migrate] at hm
   have := netmap_snapshot_migrated hv hm c hc i hi
@@ -497,7 +498,34 @@ theorem netmap_upgrade_converts_node_lists (st st' : CState) (env : Env) (data :
         | some nn =>
           rw [hmn] at hconv
           simp only [Option.some.injEq] at hconv
-          exact ⟨it, nodes, nn, hd, he, mapNodes_spec hmn, by rw [hget, hconv]⟩
+          exact ⟨it, nodes, nn, hd, he, mapNodes_spec hmn, (mapNodes_spec hmn).length_eq, by rw [hget, hconv]⟩
+
+/-- **an empty node list stays an empty node list** (the behaviour repaired by f42319b, finding F20): a
+snapshot slot below the count that holds an empty list in the format before 0.16 holds the serialized empty
+array after the upgrade, and `getSnapshot` - what `netmap()` and `snapshot(d)` answer with - reads it as the
+empty array, not as Null -/
+theorem netmap_upgrade_keeps_empty_node_lists (st st' : CState) (env : Env) (data : Item) (nefOk : Bool)
+    (hv : st.ver < 16000) (h : update .netmap st env data nefOk = some st')
+    (c : Nat) (hc : snapshotCount st.store = some c) (i : Nat) (hi : i < c)
+    (d : Bytes) (hg : get st.store (snapshotKey i) = some d) (it : Item) (hd : deser d = some it)
+    (he : elems it = some []) :
+    get st'.store (snapshotKey i) = some (ser (.array [])) ∧
+      (nmSnapshotAt st'.store i).map ser = some (ser (.array [])) := by
+  have := netmap_upgrade_converts_node_lists st st' env data nefOk hv h c hc i hi
+  rw [hg] at this
+  obtain ⟨it', nodes, nn, hd', he', _, hlen, hget⟩ := this
+  rw [hd] at hd'
+  simp only [Option.some.injEq] at hd'
+  subst hd'
+  rw [he] at he'
+  simp only [Option.some.injEq] at he'
+  subst he'
+  have : nn = [] := List.eq_nil_of_length_eq_zero (by simpa using hlen)
+  subst this
+  refine ⟨hget, ?_⟩
+  unfold nmSnapshotAt
+  rw [hget]
+  decide
 
 /-- **candidates before 0.16**: every record `{{BLOB}, state}` under `candidate ‖ key` is `{BLOB, state}` after
 the upgrade, under the same key -/
@@ -521,19 +549,11 @@ theorem netmap_upgrade_creates_subscribers (st st' : CState) (env : Env) (data :
   simp only [migrate] at hm
   exact netmap_subscribers hv hm hnone b c hb hc
 
-/-- **finding F17 (negation witness)**: a snapshot slot holding the EMPTY node list in the format before
-0.16 (what `_deploy` of 0.15 wrote into every slot) is answered as an empty list before the upgrade and as
-Null after it: `var newnodes []Node` stays nil and `std.Serialize(nil)` is the serialized Null. -/
-theorem netmap_empty_snapshot_becomes_null :
-    ∃ (s s' : Store), netmapMigrate 15004 0 s = some s' ∧
-      (nmSnapshotAt s 0).map ser = some (ser (.array [])) ∧ (nmSnapshotAt s' 0).map ser = some (ser .null) :=
-  ⟨[(snapshotKey 0, ser (.array [])), (netmap_snapshotCountKey_bytes, [1]), (balanceHashKey, [1]), (containerHashKey, [2])],
-   _, rfl, by decide, by decide⟩
-
--- non-vacuity: one node in slot 0, a candidate, configuration, legacy address keys
+-- non-vacuity: one node in slot 0, the empty list in slot 1, a candidate, configuration, legacy address keys
 def nodeBlob : Bytes := [10, 33, 2, 1, 1]
 def netmapOldStore : Store :=
-  [(snapshotKey 0, ser (.array [.struct [.bytes nodeBlob]])), (netmap_snapshotCountKey_bytes, [1]),
+  [(snapshotKey 0, ser (.array [.struct [.bytes nodeBlob]])), (snapshotKey 1, ser (.array [])),
+   (netmap_snapshotCountKey_bytes, [2]),
    (netmap_snapshotCurrentIDKey_bytes, []), (netmap_snapshotEpoch_bytes, [5]),
    (netmap_candidatePrefix ++ [2, 1, 1], ser (.struct [.struct [.bytes nodeBlob], .int 3])),
    (netmap_configPrefix ++ [65], [9]), (balanceHashKey, [11]), (containerHashKey, [12])]
@@ -541,6 +561,9 @@ def netmapAfter : Option CState := update .netmap ⟨15004, netmapOldStore⟩ by
 example : netmapAfter.map (fun st => ((nmNetmap st.store).map ser, (nmCandidates st.store).map (·.map ser))) =
     some (some (ser (.array [.struct [.bytes nodeBlob, .int 1]])),
       some [ser (.struct [.bytes nodeBlob, .int 3])]) := by decide
+example : (nmSnapshotAt netmapOldStore 1).map ser = some (ser (.array [])) ∧
+    netmapAfter.map (fun st => ((nmSnapshotAt st.store 1).map ser, get st.store (snapshotKey 1))) =
+      some (some (ser (.array [])), some (ser (.array []))) := by decide
 example : netmapAfter.map (fun st => (nmConfig st.store, nmSubscribers st.store, get st.store balanceHashKey)) =
     some ([([65], [9])], [[11], [12]], none) := by decide
 
